@@ -79,6 +79,8 @@ def run(ctx):
     ctx.rule = ('runs of generated upgrades (1-3 mutations, optionally a new model) plus the baseline install and a '
                 'nothing-to-do run, each fault-free and with an injected failure at EVERY write-statement index; '
                 'non-trivial = the trace has at least one applying/creating pair; distinct by (case, k)')
+    migration_runs(ctx, quick)
+    migration_app_runs(ctx)
     ncases = 9 if quick else 120
     done = 0
     tries = 0
@@ -148,6 +150,148 @@ def run(ctx):
             if lock_value() != lock0:
                 ctx.fail(None, 'the process-wide evolve lock did not return to its previous value (%r -> %r)'
                          % (lock0, lock_value()), dict(rep0, k=k))
+
+
+def run_mig(case, vapp_fields, evolutions, migrations, fail_at=None):
+    """one run of an app that has Django migrations (handed in, as in C10), traced"""
+    from django_evolution.compat.apps import get_apps
+    from django_evolution.evolve import EvolveAppTask, Evolver
+    from django_evolution.utils.apps import get_app_label
+    from .c10 import spec
+    evorig._hygiene()
+    evorig.install_models(spec(vapp_fields, None))
+    evorig.set_evolutions('vapp', evolutions or [])
+    tr = evorig.Trace(fail_at=fail_at)
+    outcome = 'ok'
+    with tr.recording():
+        try:
+            ev = Evolver()
+            for a in get_apps():
+                if get_app_label(a) == 'vapp':
+                    ev.queue_task(EvolveAppTask(ev, a, migrations=migrations))
+                else:
+                    ev.queue_evolve_app(a)
+            if ev.get_evolution_required():
+                ev.evolve()
+        except Exception:
+            outcome = 'error'
+    return outcome, tr
+
+
+def migration_runs(ctx, quick):
+    """the C10 histories: an app handed over to migrations from each start state, an app that is on
+    migrations from its first install, and a legacy database whose tables exist although no migration is
+    recorded (Django then records the initial migration without running it); fault-free and with a
+    failure injected at every write statement"""
+    from django.db import connection
+    from .c10 import Case
+    combos = [(1, 2, 1), (0, 3, 2), (2, 1, 1)] if quick else \
+        [(k, m, s) for k in (0, 1, 2) for m in (1, 2, 3) for s in range(1, m + 1)]
+    for (k, m, s) in combos:
+        case = Case(k, m, s, False)
+        final_fields = ['base'] + case.fnames + case.gnames
+
+        def start_evolutions():
+            # database at the last evolution before the hand-over
+            evorig.fresh_databases()
+            evorig.clear_evolutions()
+            run_mig(case, ['base'], [], None)
+            return run_mig(case, ['base'] + case.evo_fields, case.evolutions(upto=len(case.evo_fields)), None)[0] == 'ok'
+
+        def start_fresh():
+            evorig.fresh_databases()
+            evorig.clear_evolutions()
+            return True
+
+        def start_legacy():
+            # tables created outside of any tool, nothing recorded for the app
+            evorig.fresh_databases()
+            evorig.clear_evolutions()
+            with connection.cursor() as cur:
+                cur.execute('CREATE TABLE "vapp_alpha" ("id" integer NOT NULL PRIMARY KEY AUTOINCREMENT, %s)'
+                            % ', '.join('"%s" integer NULL' % n for n in ['base'] + case.fnames))
+            return True
+        scenarios = [('handover', start_evolutions, lambda: case.evolutions()),
+                     ('fresh_on_migrations', start_fresh, lambda: case.evolutions()),
+                     ('legacy_tables_unrecorded', start_legacy, lambda: [])]
+        for name, start, evos in scenarios:
+            if ctx.time_left() < 25:
+                return
+            if not start():
+                ctx.count('migration_runs:start_failed')
+                continue
+            outcome, tr = run_mig(case, final_fields, evos(), case.migrations())
+            rep0 = {'scenario': name, 'k': k, 'm': m, 's': s}
+            sig_names = [x[0] for x in tr.signals()]
+            ctx.case(dict(rep0, fault=None, signals=sig_names), nontrivial='applying_migration' in sig_names,
+                     sample_cap=6)
+            ctx.count('migration_runs:%s' % name)
+            if outcome != 'ok':
+                ctx.count('migration_runs:%s_failed' % name)
+                continue
+            for p in check_trace(tr, 'ok'):
+                ctx.fail(None, 'migrations (%s): %s' % (name, p), dict(rep0, signals=tr.signals()))
+            n = len(tr.write_statements())
+            for j in range(n):
+                if ctx.time_left() < 20:
+                    return
+                start()
+                oj, trj = run_mig(case, final_fields, evos(), case.migrations(), fail_at=j)
+                ctx.count('migration_fault_runs')
+                ctx.case(dict(rep0, fault=j, signals=[x[0] for x in trj.signals()]), nontrivial=True, sample_cap=4)
+                for p in check_trace(trj, oj):
+                    ctx.fail(None, 'migrations (%s), fault at write #%d of %d: %s' % (name, j, n, p),
+                             dict(rep0, fault=j, signals=trj.signals(), failed_sql=trj.failed_sql))
+
+
+class _Shim(object):
+    def __init__(self, events):
+        self.events = [tuple(e) for e in events]
+
+
+def migration_app_runs(ctx):
+    """an app on Django migrations from its first release (tools/vlib/c17_worker.py, own process because the
+    project then contains one more app)"""
+    import json
+    import os
+    import subprocess
+    import sys
+    import tempfile
+    here = os.path.dirname(os.path.dirname(os.path.abspath(__file__)))
+    fd, out = tempfile.mkstemp(prefix='devo-c17-', suffix='.json')
+    os.close(fd)
+    try:
+        p = subprocess.run([sys.executable, '-B', os.path.join(here, 'c17_worker.py'), out],
+                           stdout=subprocess.PIPE, stderr=subprocess.STDOUT, timeout=max(60, ctx.time_left()))
+        if p.returncode != 0:
+            raise RuntimeError('C17 worker failed: %s' % p.stdout.decode()[-600:])
+        results = json.load(open(out))['results']
+    finally:
+        if os.path.exists(out):
+            os.unlink(out)
+    for r in results:
+        sig_names = [e[1] for e in r['events'] if e[0] == 'signal']
+        ctx.count('migration_app:%s%s' % (r['scenario'], '' if r['fault'] is None else ':fault'))
+        ctx.case({'scenario': r['scenario'], 'fault': r['fault'], 'signals': sig_names},
+                 nontrivial='applying_migration' in sig_names, sample_cap=5)
+        rep = {'scenario': r['scenario'], 'fault': r['fault'], 'failed_sql': r.get('failed_sql'), 'error': r['error'],
+               'signals': [e[1:] for e in r['events'] if e[0] == 'signal']}
+        if r['fault'] is None and r['outcome'] != 'ok':
+            ctx.fail(None, 'migration app (%s): the run fails: %s' % (r['scenario'], r['error']), rep)
+            continue
+        for prob in check_trace(_Shim(r['events']), r['outcome'], apps=('vapp', 'wapp', 'xapp', 'mapp')):
+            ctx.fail(None, 'migration app (%s%s): %s' % (r['scenario'], '' if r['fault'] is None else
+                                                          ', fault at write #%d of %d' % (r['fault'], r['of']), prob), rep)
+        if r['scenario'].endswith(':again'):
+            w = [e[1] for e in r['events'] if e[0] == 'sql' and '"mapp_' in e[1]]
+            if w or 'applying_migration' in sig_names:
+                ctx.fail(None, 'migration app (%s): a second run is not a no-op: %s' % (r['scenario'], (w or sig_names)[:2]), rep)
+        if r['fault'] is not None and r['outcome'] == 'error':
+            idx = [i for i, e in enumerate(r['events']) if e[0] == 'fault']
+            after = [e[1] for e in r['events'][idx[0]:] if e[0] == 'signal'] if idx else []
+            bad = [x for x in after if x in ('applied_evolution', 'created_models', 'applied_migration', 'evolved')]
+            if bad:
+                ctx.fail(None, 'migration app (%s): %s emitted after the failing statement' % (r['scenario'], bad[0]), rep)
 
 
 def replay(ctx, obj):
